@@ -120,6 +120,70 @@ impl<'a> SegRunner<'a> {
     pub fn end(&mut self) { writeln!(self.out.hist, "H{} seg 0 0 :: {}", self.hid, self.ops.join(" ; ")).unwrap(); }
     fn bucket(&self, x: i64) -> i64 { ((x as i128 - self.lo as i128) >> ref_scale(self.lo, self.hi).unwrap_or(0)) as i64 }
 
+    /// C18: an operation that was interrupted by a panicking accessor while it was adding value `v` must have
+    /// added it everywhere or nowhere: probe the whole domain and every single bucket at the current time and
+    /// require all answers to agree with the content before the operation, or all with the content after it
+    pub fn probe_all_or_nothing(&mut self, v: (i64, i64, i64, i64)) {
+        let t = self.last_q.unwrap_or(0);
+        let sc = ref_scale(self.lo, self.hi).unwrap_or(0);
+        let mut probes: Vec<(i64, i64)> = vec![(self.lo, self.hi)];
+        for b in 0..32i64 {
+            let x = self.lo + (b << sc);
+            if x <= self.hi { probes.push((x, x)); }
+        }
+        let (mut ok0, mut ok1) = (true, true);
+        let mut seen_in: Vec<i64> = vec![]; let mut missing_in: Vec<i64> = vec![];
+        for (c, d) in probes {
+            let op = Op::new("query", &[c, d, t, -1]);
+            cb_reset(None, false);
+            let real = self.real.as_mut().unwrap();
+            let res = catch_unwind(AssertUnwindSafe(|| real.apply(&op)));
+            cb_take();
+            self.out.eval("C18");
+            let o = match res { Ok(o) => o, Err(_) => { self.dead = true; self.fail(&["C18", "C10"], "query after a caught panic panicked", "no panic", "panic"); return; } };
+            let mut got: Vec<i64> = o.trim_matches(|c| c == '[' || c == ']').split(',').filter(|s| !s.is_empty()).map(|s| s.parse().unwrap()).collect();
+            got.sort();
+            let (bc, bd) = (self.bucket(c), self.bucket(d));
+            let vis = |x: &(i64, i64, i64, i64)| x.3 >= t && self.bucket(x.0) <= bd && bc <= self.bucket(x.1);
+            let mut e0: Vec<i64> = self.vals.iter().filter(|x| vis(x)).map(|x| x.2).collect();
+            e0.sort();
+            let mut e1 = e0.clone();
+            if vis(&v) { e1.push(v.2); e1.sort(); }
+            if got != e0 { ok0 = false; }
+            if got != e1 { ok1 = false; }
+            if vis(&v) { if got.contains(&v.2) { seen_in.push(bc); } else { missing_in.push(bc); } }
+        }
+        self.last_q = Some(t);
+        if !(ok0 || ok1) {
+            self.fail(&["C18"], "an insert interrupted by a panicking accessor left a partially applied update",
+                "the value visible from every bucket of its range, or from none",
+                &format!("value {} visible from probes starting at buckets {:?}, missing at {:?}", v.2, seen_in, missing_in));
+        }
+    }
+
+    /// run `op` with a panic injected at the k-th callback; `false` = the callback index was not reached (the
+    /// operation completed; the caller abandons this runner). Recorded as `@inject k ; op`, which `replay` repeats.
+    pub fn step_injected(&mut self, op: &Op, k: usize) -> bool {
+        if self.dead || self.real.is_none() { return false; }
+        crate::run::progress();
+        cb_reset(Some(k), false);
+        let real = self.real.as_mut().unwrap();
+        let res = catch_unwind(AssertUnwindSafe(|| real.apply(op)));
+        cb_take();
+        self.ops.push(format!("@inject {}", k));
+        self.ops.push(op.text());
+        self.out.eval("C18");
+        if res.is_ok() { return false; }
+        match op.name.as_str() {
+            // (the unchanged code makes no callback while inserting: this is reached only if it starts to)
+            "insert" => { let a = op.a.clone(); self.probe_all_or_nothing((a[0], a[1], a[2], a[3])); }
+            // the interrupted query already purged copies expired at its time
+            "query" => { let tq = op.a[2]; self.last_q = Some(self.last_q.map_or(tq, |x| x.max(tq))); }
+            _ => {}
+        }
+        true
+    }
+
     pub fn step(&mut self, op: &Op) -> String {
         if self.dead || self.real.is_none() { return "DEAD".into(); }
         crate::run::progress();
